@@ -463,4 +463,41 @@ theorem alloc_returns_free_unstored {s : State} (op : Op) (hal : op.isAlloc = tr
       exact ⟨h.unstored p hp, hpk.2.1⟩
   | _ => simp [Op.isAlloc] at hal
 
+/-- a failed (not crashed) allocation move never deletes or changes a store object which existed before -/
+theorem alloc_failure_keeps_store {s : State} (op : Op) (hal : op.isAlloc = true) {e : Err}
+    (he : (op.run s).2.err = some e) (hec : e ≠ .crashed) :
+    ∀ ip r, s.store.get ip = some r → (op.run s).1.store.get ip = some r := by
+  cases op with
+  | allocSpecific key ip0 a pl =>
+    rw [run_allocSpecific] at he ⊢
+    intro ip r hst
+    unfold allocateSpecific at he ⊢
+    by_cases hin : ip0 ∈ s.free
+    · rw [if_pos hin] at he ⊢
+      rcases sCreate_cases pl 0 s.store ip0 (mkRec key a s.clock) with ⟨e0, _, heq, _⟩ | ⟨_, heq⟩ | ⟨st', heq⟩
+      · rw [heq]; exact hst
+      · rw [heq] at he; simp at he
+      · rw [heq] at he; simp [Out.fail] at he; exact absurd he.symm hec
+    · rw [if_neg hin]; exact hst
+  | allocSubnet key subnet a choice pl =>
+    intro ip r hst
+    simp only [Op.run] at he ⊢
+    unfold allocateInSubnet at he ⊢
+    cases choice with
+    | none => exact hst
+    | some ip0 =>
+      simp only at he ⊢
+      rcases sCreate_cases pl 0 s.store ip0 (mkRec key a s.clock) with ⟨e0, _, heq, _⟩ | ⟨_, heq⟩ | ⟨st', heq⟩
+      · rw [heq]; exact hst
+      · rw [heq] at he; simp at he
+      · rw [heq] at he; simp [Out.fail] at he; exact absurd he.symm hec
+  | allocRanges key subnet ranges a choice pl =>
+    intro ip r hst
+    simp only [Op.run] at he ⊢
+    obtain ⟨_, hfa, _⟩ := allocRanges_failure_general he hec
+    rcases hfa ip with ⟨_, h2, _⟩ | ⟨_, h2, _⟩
+    · rw [h2]; exact hst
+    · rw [h2] at hst; cases hst
+  | _ => simp [Op.isAlloc] at hal
+
 end Galaxy.Ipam
